@@ -53,7 +53,33 @@ fn parse_with(parser: &FilterParser<'_>, text: &str, show: &dyn Fn() -> Value) -
 fn op_rhs(ast: &FilterAst, show: &dyn Fn() -> Value) -> Result<(Value, Value), Fail> {
     let j = catch(|| serde_json::to_value(ast)).map_err(|p| Fail::new("serialize-panic", p, show()))?;
     let j = j.map_err(|e| Fail::new("serialize-error", e.to_string(), show()))?;
+    // walk through `not` and `or` wrappers (parentheses are transparent in the JSON)
+    let mut j = &j;
+    loop {
+        if j.get("arg").is_some() {
+            j = &j["arg"];
+        } else if let Some(items) = j.get("items").and_then(|i| i.as_array()) {
+            j = items.last().unwrap();
+        } else {
+            break;
+        }
+    }
     Ok((j["op"].clone(), j["rhs"].clone()))
+}
+
+/// The comparison in a position with the same truth value: bare, or nested in
+/// parentheses / double negation (nested parsers must enforce the same limits
+/// and hand over the same pattern as the top-level one).
+const PLACEMENTS: usize = 6;
+fn place(k: usize, cmp: &str) -> String {
+    match k % PLACEMENTS {
+        0 => cmp.to_string(),
+        1 => format!("({cmp})"),
+        2 => format!("not not {cmp}"),
+        3 => format!("( ({cmp}) )"),
+        4 => format!("not (not {cmp})"),
+        _ => format!("(s < \"\") or ({cmp})"),
+    }
 }
 
 // ---------------------------------------------------------------------------
@@ -140,7 +166,7 @@ fn regex_case_n(n_samples: usize, ch: &mut Choices<'_>, st: &mut Stats) -> CaseR
     let form = regex_form(ch);
     let lit = rx::regex_literal(&p, &form);
     let op = ["matches", "~"][ch.draw(2)];
-    let text = format!("s {op} {lit}");
+    let text = place(ch.weighted(&[3, 1, 1, 1, 1, 1]), &format!("s {op} {lit}"));
     let vals = regex_values(&rx, ch, n_samples);
     let show = || json!({"scheme": "s: Bytes", "filter": text, "pattern_for_the_regex_engine": p, "form": format!("{form:?}")});
     let scheme: &Scheme = &SCHEME;
@@ -188,6 +214,14 @@ fn regex_case_n(n_samples: usize, ch: &mut Choices<'_>, st: &mut Stats) -> CaseR
     if p.contains("\\x") {
         st.class("regex-with-hex-escape");
     }
+    for (needle, class) in [("\\b", "regex-with-word-boundary"), ("\\B", "regex-with-word-boundary"), ("\\<", "regex-with-word-start-end"), ("\\>", "regex-with-word-start-end"), ("(?", "regex-with-flag-group"), ("{", "regex-with-counted-repeat"), ("\\w", "regex-with-perl-class"), ("\\d", "regex-with-perl-class"), ("\\s", "regex-with-perl-class")] {
+        if p.contains(needle) && hit && miss {
+            st.class(class);
+        }
+    }
+    if !rx.has_class_or_repeat() && (p.contains("\\<") || p.contains("\\>")) && hit && miss {
+        st.class("regex-literal-with-word-start-end");
+    }
     if vals.iter().any(|v| std::str::from_utf8(v).is_err() && rx.is_match(v)) {
         st.class("regex-matching-non-utf8-value");
     }
@@ -229,7 +263,7 @@ fn invalid_regex_case(ch: &mut Choices<'_>, st: &mut Stats) -> CaseResult {
     };
     let form = regex_form(ch);
     let lit = rx::regex_literal(&p, &form);
-    let text = format!("s matches {lit}");
+    let text = place(ch.weighted(&[3, 1, 1, 1, 1, 1]), &format!("s matches {lit}"));
     let show = || json!({"scheme": "s: Bytes", "filter": text, "invalid_pattern": p});
     let scheme: &Scheme = &SCHEME;
     let parser = FilterParser::new(scheme);
@@ -309,8 +343,8 @@ fn wild_check(pattern: &[u8], lit: &str, form: &str, limits: &[usize], run_value
     let scheme: &Scheme = &SCHEME;
     let mut out = WildStats { accepted: false, ci_only: false };
     for (strict, opname, jopname) in [(false, "wildcard", "Wildcard"), (true, "strict wildcard", "Strict Wildcard")] {
-        let text = format!("s {opname} {lit}");
-        for &limit in limits {
+        for (li, &limit) in limits.iter().enumerate() {
+            let text = place(pattern.len() + pattern.iter().map(|b| *b as usize).sum::<usize>() + li + strict as usize, &format!("s {opname} {lit}"));
             let show = || {
                 json!({
                     "scheme": "s: Bytes", "filter": text, "pattern_bytes": show_bytes(pattern), "literal_form": form,
@@ -473,7 +507,7 @@ fn size_case(ch: &mut Choices<'_>, st: &mut Stats) -> CaseResult {
         _ => (format!("(ab|cd){{{n}}}"), b"cd"),
     };
     let lit = rx::regex_literal(&p, &if raw { RegexForm::Raw(1) } else { RegexForm::Quoted });
-    let text = format!("s matches {lit}");
+    let text = place(ch.weighted(&[3, 1, 1, 1, 1, 1]), &format!("s matches {lit}"));
     let scheme: &Scheme = &SCHEME;
     // outcome per limit, ascending; usize::MAX = default parser
     let mut outcomes: Vec<(usize, bool)> = Vec::new();
